@@ -2,114 +2,17 @@
 
 J1  TLC model-checks module Constrain (Minimal / UnchangedIfFeasible / ... on every DAG,
     mean vector, fixed set, eps, iteration count in scope).
-J2  every behaviour of a smaller scope is replayed into the real util._constrain_ages and
-    util.constrain_ages.
+J2  every behaviour of a smaller scope is replayed into the real util._constrain_ages.
 J3  every real execution (replays, and constraint steps observed inside real date() calls)
     is abstracted to ranks and validated by TLC against ConstrainTrace with the
     statements of C27 switched on.
 """
 
-import numpy as np
-
 from .. import constrain_common as cc
-from .. import harness, inputs, record
+from .. import harness, inputs
 
+PID = "C27"
 CHECKS = ["Minimal", "UnchangedIfFeasible", "Idempotent"]
-
-
-def event_from_arrays(tid, n, ep, ec, mean, out, tin, fixed, eps, iters, out2=None):
-    plus = out[ec] + eps
-    succ = np.nextafter(out[ec], np.inf)
-    raised = np.maximum(plus, succ)
-    vals = np.concatenate([mean, out, plus, raised, tin] + ([out2] if out2 is not None else []))
-    uniq = np.unique(vals)
-    rk = lambda a: (np.searchsorted(uniq, a) + 1).tolist()  # noqa: E731
-    feasible = bool(np.all(mean[ep] - mean[ec] > eps)) if len(ep) else True
-    return {"tid": tid, "n": int(n), "ep": (np.asarray(ep) + 1).tolist(), "ec": (np.asarray(ec) + 1).tolist(),
-            "mean": rk(mean), "out": rk(out), "plus": rk(plus), "raised": rk(raised), "tin": rk(tin),
-            "fixed": [bool(x) for x in fixed], "iters": int(iters), "feasible": feasible,
-            "absorb": bool(np.any(raised != plus)), "out2": rk(out2 if out2 is not None else out)}
-
-
-def kernel_events(ctx, insts, modes=("unit", "ulp")):
-    """Replay TLC behaviours into the real kernel; yield rank events of what the code did,
-    and report disagreement with the specification's final state where the property
-    determines the result (iters = 0)."""
-    from tsdate import util
-    events, meta = [], []
-    for i, inst in enumerate(insts):
-        for mode in modes:
-            r = cc.realise(inst, mode)
-            if r is None:
-                continue
-            t, fixed, ep, ec, eps, iters, out_spec = r
-            ctx.evaluations += 1
-            try:
-                got = util._constrain_ages(t, fixed, ep, ec, eps, iters)
-                got2 = util._constrain_ages(got, fixed, ep, ec, eps, iters)
-            except Exception as ex:  # noqa: BLE001
-                ctx.violation(f"C27/kernel/{type(ex).__name__}", {"inst": inst, "mode": mode},
-                              f"_constrain_ages raised {type(ex).__name__}: {ex}", subcheck="kernel")
-                continue
-            tags = cc.classify(inst)
-            if tags:
-                ctx.nontriv((tuple(map(tuple, inst["edges"])), tuple(inst["mean"]), tuple(inst["fixed"]),
-                             inst["eps"], inst["iters"], mode))
-            tin = t.copy()
-            tid = f"k{i}-{mode}"
-            events.append(event_from_arrays(tid, len(t), ep, ec, t, got, tin, fixed, eps, iters, out2=got2))
-            meta.append((tid, inst, mode, got.tolist(), out_spec.tolist()))
-            if iters == 0 and not np.array_equal(got, out_spec) and not (inst["eps"] == 0):
-                ctx.violation("C27/kernel/not-least-fixpoint", {"inst": inst, "mode": mode},
-                              f"forced pass result {got.tolist()} differs from the least fixpoint {out_spec.tolist()}",
-                              subcheck="kernel")
-            ctx.sample({"kind": "kernel replay", "instance": inst, "mode": mode, "code_out": got.tolist()})
-    return events, meta
-
-
-def date_events(ctx, corpus, methods, settings):
-    import tsdate
-    from tsdate import util
-    events, meta = [], []
-    for inp in corpus:
-        for method in methods:
-            for kw in settings:
-                args = dict(mutation_rate=inp.mu, method=method, **kw)
-                if method != "variational_gamma":
-                    if "historical" in inp.tags:
-                        continue
-                    args["population_size"] = inp.Ne
-                call = record.observed_call(tsdate.date, inp.ts, **args)
-                ctx.evaluations += 1
-                if not call.ok:
-                    continue  # acceptance/rejection is C35's business
-                if len(call.constrain) != 1:
-                    raise harness.MachineryError(
-                        f"expected exactly one constrain_ages call inside date(), saw {len(call.constrain)}")
-                mean, eps, iters, _ = call.constrain[0]
-                ts_in, ts_out = inp.ts, call.ts
-                out = ts_out.nodes_time
-                out2 = util.constrain_ages(ts_in, out, eps, iters)
-                fixed = np.zeros(ts_in.num_nodes, dtype=bool)
-                fixed[ts_in.samples()] = True
-                tid = f"{inp.name}/{method}/{sorted(kw.items())}"
-                ev = event_from_arrays(tid, ts_in.num_nodes, ts_in.edges_parent, ts_in.edges_child, mean, out,
-                                       ts_in.nodes_time, fixed, eps, iters, out2=out2)
-                events.append(ev)
-                meta.append((tid, inp.name, method, kw))
-                if np.any(mean != out):
-                    ctx.nontriv(tid)
-    return events, meta
-
-
-def judge(ctx, events, meta, label):
-    rej = cc.validate_traces(ctx, events, CHECKS)
-    by = {m[0]: m for m in meta}
-    for r in rej:
-        m = by.get(r["tid"])
-        ev = next(e for e in events if e["tid"] == r["tid"])
-        ctx.violation(f"C27/{label}/{r['clause']}", {"event": ev, "meta": m},
-                      f"trace {r['tid']} rejected by ConstrainTrace at clause {r['clause']}", subcheck=label)
 
 
 def run(ctx):
@@ -119,40 +22,32 @@ def run(ctx):
                 "floats at 2^60), plus constraint steps observed inside real date() calls; non-trivial = the "
                 "constraint moved at least one node")
     ctx.assumptions = ["rank abstraction A2 (vt/constrain_common.py) is order-isomorphic",
-                       "absorbing instances (fl(c+eps)=c) are judged by C01, not by C27's literal max(mean, c+eps)"]
+                       "where fl(c+eps)=c (absorption) the least fixpoint uses max(fl(c+eps), nextafter(c)), the "
+                       "only reading compatible with C01; traces with absorption skip the Minimal clause"]
     quick = ctx.quick
-    # J1
     cc.model_check(ctx, "c27_j1", N=4, T=2 if quick else 3, iters=[0, 1] if quick else [0, 1, 2], eps=[0, 1],
                    max_edges=4 if quick else 5)
     if not quick:
         cc.model_check(ctx, "c27_j1b", N=5, T=2, iters=[0], eps=[0, 1, 2], max_edges=5, fixed_mode="leaves")
-    # J2 + J3 (kernel)
     insts = cc.generate(ctx, "c27_j2", N=3 if quick else 4, T=2, iters=[0, 1], eps=[0, 1],
                         max_edges=3 if quick else 4)
-    if quick and len(insts) > 1500:
-        insts = ctx.rng.sample(insts, 1500)
-    elif len(insts) > 20000:
-        insts = ctx.rng.sample(insts, 20000)
-    ctx.exhaustive = False
-    ev, meta = kernel_events(ctx, insts)
-    judge(ctx, ev, meta, "kernel")
-    # J3 (real date())
-    corpus = inputs.contemporaneous(ctx.seed, k=3 if quick else 10) + inputs.polytomies(ctx.seed, k=1 if quick else 3) \
-        + inputs.historical(ctx.seed, k=1 if quick else 3) + inputs.internal_samples(ctx.seed, k=1 if quick else 3)
+    ctx.exhaustive = True
+    cap = 1500 if quick else 20000
+    if len(insts) > cap:
+        insts = ctx.rng.sample(insts, cap)
+        ctx.exhaustive = False
+    ev, meta = cc.kernel_events(ctx, PID, insts, compare_absorbing=False)
+    cc.judge(ctx, PID, CHECKS, ev, meta, "kernel")
+    corpus = cc.default_corpus(ctx)
     corpus += [inputs.scaled(corpus[0], 1e9), inputs.scaled(corpus[1], 1e-5)]
     settings = [{}, {"constr_iterations": 0}, {"constr_iterations": 3}, {"min_branch_length": 1.0}]
     if not quick:
         settings += [{"min_branch_length": 1e-12}, {"constr_iterations": 100, "min_branch_length": 0.5}]
-    ev, meta = date_events(ctx, corpus, ["variational_gamma", "inside_outside", "maximization"], settings)
-    judge(ctx, ev, meta, "date")
+    ev, meta = cc.date_events(ctx, PID, corpus, ["variational_gamma", "inside_outside", "maximization"], settings)
+    cc.judge(ctx, PID, CHECKS, ev, meta, "date")
     ctx.count("date_calls_traced", len(ev))
 
 
 def replay(ctx, body):
     harness.setup_repo_env(ctx.work)
-    inst = body["instance"]
-    if body["subcheck"] == "kernel" and "inst" in inst:
-        ev, meta = kernel_events(ctx, [inst["inst"]], modes=(inst["mode"],))
-        judge(ctx, ev, meta, "kernel")
-    elif "event" in inst:
-        judge(ctx, [inst["event"]], [(inst["event"]["tid"],)], body["subcheck"] or "date")
+    cc.replay(ctx, PID, CHECKS, body)
